@@ -99,11 +99,13 @@ Proof.
   - exact Q.
   - exact Q.
   - exact Q.
-  - pose proof (quiet_srv_step st c Q) as H. destruct (srv_step st c). exact H.
+  - pose proof (quiet_srv_step (wake_up st) c Q) as H. destruct (srv_step (wake_up st) c). exact H.
   - unfold cli_step. destruct (k_closed (st_cl st c)); [exact Q|].
     destruct (k_s2c (st_cl st c)) as [|m rest]; [exact Q|].
     destruct m; cbn [msg_rid]; try exact Q;
       destruct (out_take _ _) as [[kd o]|]; exact Q.
+  - exact Q.
+  - pose proof (quiet_srv_step st c Q) as H. destruct (srv_step st c). exact H.
 Qed.
 
 Lemma quiet_run st ops : quiet st -> quiet (run st ops).
